@@ -54,6 +54,11 @@ impl Tls {
             Err(_) => return Err(Error::TlsError),
         };
 
+        // The file can have changed since the configuration was validated.
+        if keys.is_empty() {
+            return Err(Error::TlsError);
+        }
+
         let config = match rustls::ServerConfig::builder()
             .with_safe_defaults()
             .with_no_client_auth()
